@@ -94,6 +94,10 @@ class Check:
             if k not in seen_keys:
                 print(f'NOTE: known finding no longer reproduces (tree repaired?): {k}')
         replay_dir = os.path.join(VERIF, 'evidence', 'replay')
+        if os.path.isdir(replay_dir):
+            for fn in os.listdir(replay_dir):
+                if fn.startswith(self.pid + '-'):
+                    os.remove(os.path.join(replay_dir, fn))
         if unlisted:
             os.makedirs(replay_dir, exist_ok=True)
         for i, o in enumerate(unlisted):
